@@ -7,6 +7,7 @@ import (
 	"fmt"
 	"net/http"
 	"strings"
+	"time"
 
 	restful "github.com/emicklei/go-restful/v3"
 
@@ -154,7 +155,7 @@ func (e *chainEnv) ev(s string) {
 }
 
 func y(site sim.Site) {
-	if t := sim.Cur(); t != nil {
+	if t := sim.Own(); t != nil {
 		t.Y(site)
 	}
 }
@@ -910,7 +911,7 @@ func genChainReq(tp *sim.Tape, cfg *ChainCfg, k chainKnobs, id int) *ChainReq {
 		}
 	} else if k.cancels > 0 && tp.Chance(k.cancels) {
 		_, pts := cfg.model(r)
-		r.CancelAt = append([]string{"start", "start"}, pts...)[tp.G(len(pts)+2)]
+		r.CancelAt = append([]string{"start", "deadline"}, pts...)[tp.G(len(pts)+2)]
 	}
 	if tp.Chance(k.wfaults) {
 		r.WFail = 1 + tp.G(4)
@@ -1035,8 +1036,21 @@ func (cr *chainRun) serve(t *sim.Task, r *ChainReq, variant int) {
 	if variant == 1 {
 		hr.Header.Del("Accept-Encoding")
 	}
+	{
+		// as with net/http's server: cancellable, and cancelled when the exchange is over
+		ctx, cancel := context.WithCancel(hr.Context())
+		hr = hr.WithContext(ctx)
+		defer cancel()
+	}
 	if r.CancelAt != "" {
 		ctx, cancel := context.WithCancel(hr.Context())
+		if r.CancelAt == "deadline" {
+			// a deadline that has passed already (on any clock): the request arrives too late
+			ctx, cancel = context.WithDeadline(hr.Context(), time.Unix(1, 0))
+			if t != nil {
+				t.Count("fault-context-cancelled")
+			}
+		}
 		hr = hr.WithContext(ctx)
 		res.cancel = cancel
 		if r.CancelAt == "start" {
